@@ -133,17 +133,6 @@ theorem newFromSlices_spec (w : World) (slices : List Slice) (ar : Arena)
       size_eq := by
         simp only [Iov.empty, foldl_add_eq_sum, sumLens]
         omega
-      anchors_pos := by
-        intro a ha
-        by_cases he : (slices.filter (fun s => s.len > 0)).isEmpty
-        · simp [he] at ha
-        · simp only [he] at ha
-          simp only [Bool.false_eq_true, if_false, List.mem_singleton] at ha
-          subst ha
-          simp only
-          cases hf : slices.filter (fun s => s.len > 0) with
-          | nil => simp [hf] at he
-          | cons _ _ => simp
       anchors_sum := by
         by_cases he : (slices.filter (fun s => s.len > 0)).isEmpty
         · simp only [he, if_true, sumCounts_nil]
